@@ -592,9 +592,9 @@ def _run_once(cmd, d, e, inp, mode, path, timeout):
     try:
         if mode == "stdin_file":
             with open(path, "rb") as f:
-                p = subprocess.run(cmd, cwd=d, env=e, stdin=f, stdout=subprocess.PIPE, stderr=subprocess.PIPE, timeout=timeout)
+                p = lib.sp_run(cmd, cwd=d, env=e, stdin=f, stdout=subprocess.PIPE, stderr=subprocess.PIPE, timeout=timeout)
         else:
-            p = subprocess.run(cmd, cwd=d, env=e, input=inp, stdin=None if inp is not None else subprocess.DEVNULL,
+            p = lib.sp_run(cmd, cwd=d, env=e, input=inp, stdin=None if inp is not None else subprocess.DEVNULL,
                                stdout=subprocess.PIPE, stderr=subprocess.PIPE, timeout=timeout)
         return {"rc": p.returncode, "out": p.stdout.decode("utf-8", "replace"), "err": p.stderr.decode("utf-8", "replace")}
     except subprocess.TimeoutExpired:
